@@ -62,7 +62,8 @@ class ModuleInfo:
                     self.imports[a.asname or a.name] = (st.module, a.name)
             elif isinstance(st, ast.Import):
                 for a in st.names:
-                    self.imports[a.asname or a.name.split(".")[0]] = (a.name, None)
+                    # `import a.b.c` binds the name `a` to the package a; `import a.b.c as x` binds x to a.b.c
+                    self.imports[a.asname or a.name.split(".")[0]] = (a.name if a.asname else a.name.split(".")[0], None)
 
     @property
     def modname(self):
